@@ -6,6 +6,7 @@
 #include <cstdio>
 #include <cstdlib>
 #include <cstring>
+#include <clocale>
 #include <map>
 #include <string>
 #include <unordered_map>
@@ -228,6 +229,14 @@ struct LibcLedger {
 };
 inline LibcLedger &libc_ledger() { static LibcLedger l; return l; }
 
+
+// Runs a case with the process locale switched to C.UTF-8 (RFC 3986 character classes do not depend on the locale;
+// <ctype.h>/<wctype.h> classification does, e.g. iswalnum(0xE9)). Restores "C" on scope exit.
+struct LocaleArm {
+  bool on;
+  explicit LocaleArm(bool want) : on(want) { if (on && !setlocale(LC_ALL, "C.UTF-8")) on = false; if (on) stats().hit("locale=C.UTF-8"); }
+  ~LocaleArm() { if (on) setlocale(LC_ALL, "C"); }
+};
 
 #define VF_FAIL(...)                                    \
   do {                                                  \
